@@ -156,7 +156,7 @@ SUBS = [Sub('compile', cases, check, {'quick': 1500, 'thorough': 12000}, timeout
 def _upstream_c01(case, v):
     prog = case.get('prog', case)
     ops = {n['op'] for n in prog['nodes']}
-    return 'diagonalize' in ops and bool(ops & {'inflate', 'take'})
+    return 'diagonalize' in ops and bool(ops & {'inflate', 'take', 'concat', 'stack'})
 
 
 TRIGGERS = {'upstream-C01-inflate-diagonalize': _upstream_c01}
